@@ -361,6 +361,9 @@ func c04LenCauses(a bgp.PathAttributeInterface, o bgpgen.OptSet, l0, emitted int
 	if o.AddPath(fam) && n > 0 {
 		out = append(out, ":path-ids-not-counted")
 		d -= 4 * n
+		if d == 1 && a.GetFlags()&bgp.BGP_ATTR_FLAG_EXTENDED_LENGTH == 0 && emitted > 258 {
+			d = 0 // the identifiers pushed the value over 255: one more header octet, same cause
+		}
 	}
 	if d == 8 && fam.Safi() == bgp.SAFI_MPLS_VPN && nhs == 2 {
 		out = append(out, ":vpn-rd-of-second-nexthop-not-counted")
@@ -508,12 +511,12 @@ func c04Shape(n bgp.NLRI) string {
 			return "rules>=240-bytes(2-octet-length-form)"
 		}
 	case *bgp.LabeledIPAddrPrefix:
-		if len(t.Labels.Labels) > 1 && t.Labels.Labels[0] == 0 {
-			return "label-stack-with-top-label-0"
+		if c04LabelMarkerShape(t.Labels.Labels) {
+			return c04LabelShapeName
 		}
 	case *bgp.LabeledVPNIPAddrPrefix:
-		if len(t.Labels.Labels) > 1 && t.Labels.Labels[0] == 0 {
-			return "label-stack-with-top-label-0"
+		if c04LabelMarkerShape(t.Labels.Labels) {
+			return c04LabelShapeName
 		}
 	case *bgp.EVPNNLRI:
 		if t.RouteType == bgp.EVPN_I_PMSI {
@@ -1189,17 +1192,18 @@ func TestVerif_C04_Strings(t *testing.T) {
 	if vr.Thorough() {
 		maxLen = 4
 	}
-	r.Bounds["full_alphabet_max_len"] = maxLen
+	r.Bounds["full_alphabet_max_len"] = map[bool]string{false: "3", true: "4 for ipv4-unicast and ipv4-labelled-unicast, 3 for the other 8 core families"}[vr.Thorough()]
 	r.Bounds["template_tail_max"] = map[bool]int{false: 3, true: 5}[vr.Thorough()]
 	fams := bgpgen.CoreFamilies()
 	r.Bounds["families"] = len(fams)
 	W := vr.Workers()
 	for _, f := range fams {
-		// the 4-byte sweep is only affordable (and only informative) for the families whose decoder can
-		// accept such short strings: unicast / multicast; labelled needs >= 4, VPN >= 12 bytes
-		ml := maxLen
-		if ml > 3 && f.Safi() != bgp.SAFI_UNICAST && f.Safi() != bgp.SAFI_MULTICAST && f.Safi() != bgp.SAFI_MPLS_LABEL {
-			ml = 3
+		// thorough: the 4-byte sweep (4.3e9 strings) is run for ipv4-unicast and ipv4-labelled-unicast, the two
+		// decoders a 4-byte string can exercise beyond the first length check (IPv6 and multicast share their
+		// code with another address length; VPN needs >= 12 bytes); everywhere else the bound stays 3
+		ml := 3
+		if maxLen > 3 && (f == bgp.RF_IPv4_UC || f == bgp.RF_IPv4_MPLS) {
+			ml = maxLen
 		}
 		r.Parallel(W, func(w int, c *vr.Report) {
 			buf := make([]byte, 0, 8)
@@ -1238,4 +1242,355 @@ func TestVerif_C04_Strings(t *testing.T) {
 		r.Extra["templates_"+f.String()] = ntpl
 	}
 	_ = sort.Strings
+}
+
+// ---------------------------------------------------------------------------------------------
+// accepted mutants of core-family UPDATEs: re-serialising a parsed message is a fixpoint
+
+var c04Vals12 = []byte{0x00, 0x01, 0x02, 0x04, 0x08, 0x10, 0x20, 0x40, 0x7f, 0x80, 0xfe, 0xff}
+
+// c04Mutations: every position x (12 fixed values, original-1, original+1); every adjacent pair as a
+// 2-octet big-endian value in {0, 1, v-1, v+1, 0xffff}. The slice passed to f is reused.
+func c04Mutations(msg []byte, f func(m []byte)) {
+	w := make([]byte, len(msg))
+	for i := range msg {
+		copy(w, msg)
+		seen := map[byte]bool{msg[i]: true}
+		for _, v := range append(append([]byte{}, c04Vals12...), msg[i]-1, msg[i]+1) {
+			if seen[v] {
+				continue
+			}
+			seen[v] = true
+			w[i] = v
+			f(w)
+		}
+	}
+	for i := 0; i+1 < len(msg); i++ {
+		copy(w, msg)
+		v := uint16(msg[i])<<8 | uint16(msg[i+1])
+		seen := map[uint16]bool{v: true}
+		for _, x := range []uint16{0, 1, v - 1, v + 1, 0xffff} {
+			if seen[x] {
+				continue
+			}
+			seen[x] = true
+			w[i], w[i+1] = byte(x>>8), byte(x)
+			f(w)
+		}
+	}
+}
+
+// c04LabelMarkerShape reports whether a label stack holds the value 0 or 0x80000 above the bottom of the
+// stack: on the wire these are 0x000000 / 0x800000, which the decoder treats as the RFC 3107 withdraw
+// markers wherever they appear.
+func c04LabelMarkerShape(l []uint32) bool {
+	for i := 0; i+1 < len(l); i++ {
+		if l[i] == 0 || l[i] == 0x80000 {
+			return true
+		}
+	}
+	return false
+}
+
+const c04LabelShapeName = "mpls-label-0-or-0x80000-above-bottom-of-stack"
+
+// c04NLRIsOf lists the NLRI carried in the MP attributes of an UPDATE.
+func c04NLRIsOf(m *bgp.BGPMessage) []bgp.NLRI {
+	var out []bgp.NLRI
+	if u, ok := m.Body.(*bgp.BGPUpdate); ok {
+		for _, a := range u.PathAttributes {
+			switch t := a.(type) {
+			case *bgp.PathAttributeMpReachNLRI:
+				for _, n := range t.Value {
+					out = append(out, n.NLRI)
+				}
+			case *bgp.PathAttributeMpUnreachNLRI:
+				for _, n := range t.Value {
+					out = append(out, n.NLRI)
+				}
+			}
+		}
+	}
+	return out
+}
+
+// c04StaleCause explains why the re-serialised body has another length than the parsed header says.
+func c04StaleCause(b, b1 []byte, m1 *bgp.BGPMessage, o bgpgen.OptSet) string {
+	if m1.Header.Type != bgp.BGP_MSG_UPDATE {
+		return fmt.Sprintf("body-bytes-ignored-by-the-parser:type%d", m1.Header.Type)
+	}
+	fix := append([]byte{}, b1...)
+	if len(fix) >= 18 {
+		fix[16], fix[17] = byte(len(fix)>>8), byte(len(fix))
+	}
+	r0, e0 := refwire.Read(b[:int(m1.Header.Len)], c04RefOpts(o))
+	r1, e1 := refwire.Read(fix, c04RefOpts(o))
+	if e0 != nil || e1 != nil || r0.Update == nil || r1.Update == nil {
+		return "update:not-framed-by-refwire"
+	}
+	if len(r0.Update.MPReach) == len(r1.Update.MPReach) {
+		for i := range r0.Update.MPReach {
+			if r0.Update.MPReach[i].NHLen != r1.Update.MPReach[i].NHLen {
+				return "MP_REACH-next-hop-re-encoded-with-another-length"
+			}
+		}
+	}
+	if len(r0.Update.Attrs) == len(r1.Update.Attrs) {
+		for i := range r0.Update.Attrs {
+			if r0.Update.Attrs[i].Total() != r1.Update.Attrs[i].Total() {
+				return fmt.Sprintf("attr-type-%d-length-changed", r0.Update.Attrs[i].Type)
+			}
+		}
+	}
+	return "update:other"
+}
+
+// c04CheckAccepted: b is any byte string. If ParseBGPMessage accepts it without error, then the parsed
+// message must serialise, the result must parse to an equal message, and serialising that again must
+// give the same bytes (fixpoint from the second iteration on). Keys name root causes: the shape of the
+// parsed value where one decoder quirk trips different clauses, else the clause and the culprit element.
+func c04CheckAccepted(r *vr.Report, o bgpgen.OptSet, seed string, b []byte) {
+	r.Eval()
+	cs := c04Case{Part: "accepted", Name: seed, Opt: o.Name, Hex: hex.EncodeToString(b)}
+	var m1 *bgp.BGPMessage
+	var err error
+	in := append([]byte{}, b...)
+	if p := c04Try(func() { m1, err = bgp.ParseBGPMessage(in, o.Opts...) }); p != "" {
+		r.Violationf("C04:panic:"+c04PanicKey(p), cs, "ParseBGPMessage [%s] of %s: %s", o.Name, c04Hex(b), p)
+		return
+	}
+	if err != nil || m1 == nil {
+		r.Outcome("accepted:mutant-rejected")
+		return
+	}
+	what := c04MsgShape(m1)
+	// shapes first
+	for _, n := range c04NLRIsOf(m1) {
+		var labels []uint32
+		switch t := n.(type) {
+		case *bgp.LabeledIPAddrPrefix:
+			labels = t.Labels.Labels
+		case *bgp.LabeledVPNIPAddrPrefix:
+			labels = t.Labels.Labels
+		default:
+			continue
+		}
+		if len(labels) == 0 {
+			if _, e := n.Serialize(); e != nil {
+				r.Violationf("C04:strings:accepted-value-does-not-serialise:"+c04TypeName(n), cs, "[%s] %s is accepted with a labelled NLRI that has no label (%s), which does not serialise: %v", o.Name, c04Hex(b), n, e)
+				return
+			}
+		}
+		if c04LabelMarkerShape(labels) {
+			b1, _ := m1.Serialize(o.Opts...)
+			m2, e2 := bgp.ParseBGPMessage(append([]byte{}, b1...), o.Opts...)
+			j1, _ := c04JSON(m1)
+			j2 := "rejected"
+			if e2 == nil {
+				j2, _ = c04JSON(m2)
+			} else {
+				j2 += ": " + e2.Error()
+			}
+			if j1 != j2 {
+				r.Violationf("C04:nlri:"+c04TypeName(n)+":"+c04LabelShapeName, cs, "[%s] %s is accepted with label stack %v; it re-serialises to %s, which parses to %.400s (was %.400s)", o.Name, c04Hex(b), labels, c04Hex(b1), j2, j1)
+			} else {
+				r.Outcome("accepted:label-marker-shape-but-stable")
+			}
+			return
+		}
+	}
+	var b1 []byte
+	if p := c04Try(func() { b1, err = m1.Serialize(o.Opts...) }); p != "" {
+		r.Violationf("C04:panic:"+c04PanicKey(p), cs, "[%s] Serialize of the message parsed from %s: %s", o.Name, c04Hex(b), p)
+		return
+	}
+	if err != nil {
+		r.Violationf("C04:accepted:does-not-serialise:"+c04Culprit(m1, o)+":"+c04ErrClass(err), cs, "[%s] %s is accepted but the parsed message does not serialise: %v", o.Name, c04Hex(b), err)
+		return
+	}
+	if len(b1) != int(m1.Header.Len) {
+		r.Violationf("C04:accepted:header-length-stale-after-reserialise:"+c04StaleCause(b, b1, m1, o), cs, "[%s] %s is accepted; the parsed message re-serialises to %d bytes %s but keeps the parsed header length %d", o.Name, c04Hex(b), len(b1), c04Hex(b1), m1.Header.Len)
+		return
+	}
+	j1, _ := c04JSON(m1)
+	var m2 *bgp.BGPMessage
+	if p := c04Try(func() { m2, err = bgp.ParseBGPMessage(append([]byte{}, b1...), o.Opts...) }); p != "" {
+		r.Violationf("C04:panic:"+c04PanicKey(p), cs, "ParseBGPMessage [%s] of %s: %s", o.Name, c04Hex(b1), p)
+		return
+	}
+	if err != nil {
+		r.Violationf("C04:accepted:reserialised-form-rejected:"+c04AttrKinds(m1)+":"+c04ErrClass(err), cs, "[%s] %s is accepted and re-serialises to %s, which is rejected: %v", o.Name, c04Hex(b), c04Hex(b1), err)
+		return
+	}
+	if j2, _ := c04JSON(m2); j2 != j1 {
+		r.Violationf("C04:accepted:reserialised-form-differs"+c04JSONDiffKeyFam(m1, m2), cs, "[%s] %s parses to %.500s, re-serialises to %s, which parses to %.500s", o.Name, c04Hex(b), j1, c04Hex(b1), j2)
+		return
+	}
+	var b2 []byte
+	c04Try(func() { b2, err = m2.Serialize(o.Opts...) })
+	if err != nil || !bytes.Equal(b1, b2) {
+		r.Violationf("C04:accepted:no-fixpoint:"+c04AttrKinds(m1), cs, "[%s] %s -> %s -> %s (first difference at %d, err=%v)", o.Name, c04Hex(b), c04Hex(b1), c04Hex(b2), c04FirstDiff(b1, b2), err)
+		return
+	}
+	r.NT("accepted:" + what)
+	if bytes.Equal(b1, b) {
+		r.Outcome("accepted:canonical")
+	} else {
+		r.Outcome("accepted:normalised-on-reserialise")
+	}
+}
+
+func c04AttrFam(a bgp.PathAttributeInterface) string {
+	switch t := a.(type) {
+	case *bgp.PathAttributeMpReachNLRI:
+		return fmt.Sprintf("MP_REACH(%s)", bgp.NewFamily(t.AFI, t.SAFI))
+	case *bgp.PathAttributeMpUnreachNLRI:
+		return fmt.Sprintf("MP_UNREACH(%s)", bgp.NewFamily(t.AFI, t.SAFI))
+	}
+	return a.GetType().String()
+}
+
+// c04Culprit: the first element of the message that does not serialise on its own.
+func c04Culprit(m *bgp.BGPMessage, o bgpgen.OptSet) string {
+	u, ok := m.Body.(*bgp.BGPUpdate)
+	if !ok {
+		return fmt.Sprintf("type%d", m.Header.Type)
+	}
+	for _, a := range u.PathAttributes {
+		var err error
+		if p := c04Try(func() { _, err = a.Serialize(o.Opts...) }); p != "" || err != nil {
+			return c04AttrFam(a)
+		}
+	}
+	return "update"
+}
+
+// c04AttrKinds: the distinct attribute kinds (with MP family) of an UPDATE, sorted.
+func c04AttrKinds(m *bgp.BGPMessage) string {
+	u, ok := m.Body.(*bgp.BGPUpdate)
+	if !ok {
+		return fmt.Sprintf("type%d", m.Header.Type)
+	}
+	set := map[string]bool{}
+	for _, a := range u.PathAttributes {
+		set[c04AttrFam(a)] = true
+	}
+	var l []string
+	for k := range set {
+		l = append(l, k)
+	}
+	sort.Strings(l)
+	return "update[" + strings.Join(l, ",") + "]"
+}
+
+func c04JSONDiffKeyFam(m, d *bgp.BGPMessage) string {
+	um, ok1 := m.Body.(*bgp.BGPUpdate)
+	ud, ok2 := d.Body.(*bgp.BGPUpdate)
+	if !ok1 || !ok2 {
+		return ""
+	}
+	if len(um.PathAttributes) != len(ud.PathAttributes) {
+		return ":attr-count:" + c04AttrKinds(m)
+	}
+	for i := range um.PathAttributes {
+		x, _ := c04JSON(um.PathAttributes[i])
+		y, _ := c04JSON(ud.PathAttributes[i])
+		if x != y {
+			return ":" + c04AttrFam(um.PathAttributes[i])
+		}
+	}
+	return ":outside-attrs"
+}
+
+// c04MsgShape: message type + attribute types + MP families (the unit of distinct non-trivial cases).
+func c04MsgShape(m *bgp.BGPMessage) string {
+	var sb strings.Builder
+	fmt.Fprintf(&sb, "type%d", m.Header.Type)
+	if u, ok := m.Body.(*bgp.BGPUpdate); ok {
+		fmt.Fprintf(&sb, ":w%d,n%d", len(u.WithdrawnRoutes), len(u.NLRI))
+		for _, a := range u.PathAttributes {
+			fmt.Fprintf(&sb, ",a%d", a.GetType())
+			switch t := a.(type) {
+			case *bgp.PathAttributeMpReachNLRI:
+				fmt.Fprintf(&sb, "(%d/%d:%d)", t.AFI, t.SAFI, len(t.Value))
+			case *bgp.PathAttributeMpUnreachNLRI:
+				fmt.Fprintf(&sb, "(%d/%d:%d)", t.AFI, t.SAFI, len(t.Value))
+			}
+		}
+	}
+	return sb.String()
+}
+
+func c04CoreSeed(name string) bool {
+	if !strings.HasPrefix(name, "update/") || strings.HasPrefix(name, "update/pair-") || strings.HasPrefix(name, "update/nlri-x") {
+		return false
+	}
+	if strings.Contains(name, "mp-reach-") || strings.Contains(name, "mp-unreach-") {
+		for _, f := range bgpgen.CoreFamilies() {
+			if strings.Contains(name, "mp-reach-"+f.String()+"/") || strings.Contains(name, "mp-unreach-"+f.String()+"/") {
+				return true
+			}
+		}
+		return false
+	}
+	for _, k := range []string{"update/eor", "update/basic", "update/announce", "update/nlri", "update/withdrawn", "update/full-origin", "update/full-aspath", "update/full-med", "update/full-localpref", "update/full-communities"} {
+		if strings.HasPrefix(name, k) {
+			return true
+		}
+	}
+	return false
+}
+
+// TestVerif_C04_Accepted: "for the core families, for all byte strings the parser accepts": the accepted
+// single mutants of every core-family UPDATE of the catalogue.
+func TestVerif_C04_Accepted(t *testing.T) {
+	r := vr.Start(t, "C04", "accepted")
+	defer r.Finish()
+	r.Rule = "seeds = every catalogue UPDATE made of classic NLRI/withdrawn fields, the mandatory attributes and MP_REACH/MP_UNREACH of the 10 core families (<= 512 bytes); mutants = the seed itself, every position x 14 values, every adjacent pair as a 2-octet value in {0,1,v-1,v+1,ffff}; under the 8 non-extended option sets; every mutant that ParseBGPMessage accepts without error must serialise, parse back to an equal message and be a fixpoint from the second iteration; non-trivial = distinct shapes (attribute types, families, element counts) of accepted mutants that passed"
+	if r.ReplayPath() != "" {
+		var cs c04Case
+		if err := r.LoadReplay(&cs); err != nil {
+			t.Fatal(err)
+		}
+		o, _ := c04Opt(cs.Opt)
+		b, _ := hex.DecodeString(cs.Hex)
+		c04CheckAccepted(r, o, cs.Name, b)
+		return
+	}
+	var opts []bgpgen.OptSet
+	for _, o := range bgpgen.MarshallingOptionSets() {
+		if !o.Extended {
+			opts = append(opts, o)
+		}
+	}
+	var seeds []bgpgen.MsgBuilder
+	for _, mb := range bgpgen.MessageBuilders(bgpgen.Quick) {
+		if c04CoreSeed(mb.Name) {
+			seeds = append(seeds, mb)
+		}
+	}
+	r.Bounds["seed_messages"] = len(seeds)
+	r.Bounds["option_sets"] = len(opts)
+	r.Bounds["seed_max_bytes"] = 512
+	W := vr.Workers()
+	r.Parallel(W, func(w int, c *vr.Report) {
+		for i, mb := range seeds {
+			if i%W != w {
+				continue
+			}
+			for _, o := range opts {
+				if !o.Compatible(mb.AS, mb.Ext) {
+					continue
+				}
+				var b []byte
+				var err error
+				if p := c04Try(func() { b, err = mb.Build().Serialize(o.Opts...) }); p != "" || err != nil || len(b) > 512 {
+					c.Outcome("accepted:seed-skipped")
+					continue
+				}
+				c04CheckAccepted(c, o, mb.Name, b)
+				c04Mutations(b, func(m []byte) { c04CheckAccepted(c, o, mb.Name, m) })
+			}
+		}
+	})
 }
